@@ -65,7 +65,9 @@ class Daemon:
             cache = os.path.join(self.root, f"fgcache{self.n_started}")
             shutil.copytree(self.base_cache, cache)
             flags += ["--use-fine-grained-cache", "--cache-dir", cache]
-        r = common.run_cli(["--status-file", self.status_file, "start", "--log-file", self.log, *self.extra_start,
+        # safety net: a daemon orphaned by a killed harness ends itself after 15 idle minutes
+        idle = [] if "--timeout" in self.extra_start else ["--timeout", "900"]
+        r = common.run_cli(["--status-file", self.status_file, "start", "--log-file", self.log, *idle, *self.extra_start,
                             "--", *flags], cwd=self.root, env=self.env, timeout=120, module="mypy.dmypy")
         if r["status"] != 0:
             return {"ok": False, "start": r}
